@@ -125,6 +125,12 @@ def run(ctx):
                     args2 = [GC.gen_any_args(ctx.rnd) if m == "anycall" else GC.gen_arg(ctx.rnd, facade, m) for _ in range(4)]
                 for a in args2:
                     cases.append(declcorr.ChainCase(facade, [first, (m, a)]))
+    # every UUID family as a fixed value: v4, v1/v3/v5, and the non-RFC-4122 variants whose `.version` is None
+    import uuid as _uuid
+    for u in GC.U4 + GC.U_NOT4 + [_uuid.UUID(int=0), _uuid.UUID(int=2 ** 128 - 1), _uuid.UUID("00000000-0000-4000-0000-000000000000"),
+                                   _uuid.UUID("00000000-0000-4000-c000-000000000000"), _uuid.UUID("00000000-0000-4000-e000-000000000000")]:
+        cases.append(declcorr.ChainCase("uuid4", [("call", (u,))]))
+        cases.append(declcorr.ChainCase("uuid4", [("call", (u,)), ("call", (u,))]))
     for c in cases:
         # receiver unchanged: snapshot before, compare after
         declcorr.run_real(c)
